@@ -170,17 +170,25 @@ type Step struct {
 
 // ---------------------------------------------------------------- fake streams
 
+type sentMsg struct {
+	URL   string
+	Nonce string
+	Names []string
+}
+
 type fakeStream struct {
 	grpc.ServerStream
 	fail bool
 	sent int
+	log  []sentMsg
 }
 
-func (f *fakeStream) Send(*discovery.DiscoveryResponse) error {
+func (f *fakeStream) Send(r *discovery.DiscoveryResponse) error {
 	if f.fail {
 		return errors.New("send failed")
 	}
 	f.sent++
+	f.log = append(f.log, sentMsg{URL: r.TypeUrl, Nonce: r.Nonce})
 	return nil
 }
 func (f *fakeStream) Recv() (*discovery.DiscoveryRequest, error) { return nil, errors.New("no recv") }
@@ -189,13 +197,19 @@ type fakeDeltaStream struct {
 	grpc.ServerStream
 	fail bool
 	sent int
+	log  []sentMsg
 }
 
-func (f *fakeDeltaStream) Send(*discovery.DeltaDiscoveryResponse) error {
+func (f *fakeDeltaStream) Send(r *discovery.DeltaDiscoveryResponse) error {
 	if f.fail {
 		return errors.New("send failed")
 	}
 	f.sent++
+	m := sentMsg{URL: r.TypeUrl, Nonce: r.Nonce}
+	for _, x := range r.Resources {
+		m.Names = append(m.Names, x.Name)
+	}
+	f.log = append(f.log, m)
 	return nil
 }
 func (f *fakeDeltaStream) Recv() (*discovery.DeltaDiscoveryRequest, error) {
@@ -210,6 +224,39 @@ type env struct {
 	st    *fakeStream
 	dst   *fakeDeltaStream
 	bad   []string // projection problems (strings the harness did not put there)
+	// server-generated nonces (end-to-end runs) are interned here; ids continue after the harness's own
+	ntab map[string]int
+	nrev map[int]string
+}
+
+func (e *env) nid(s string) int {
+	if id, ok := e.ntab[s]; ok {
+		return id
+	}
+	return nonceID(s)
+}
+
+func (e *env) nstr(id int) string {
+	if s, ok := e.nrev[id]; ok {
+		return s
+	}
+	return nonceStr(id)
+}
+
+// intern gives a server-generated nonce the id 5000+k
+func (e *env) intern(s string) int {
+	if s == "" {
+		return 0
+	}
+	if id, ok := e.ntab[s]; ok {
+		return id
+	}
+	if e.ntab == nil {
+		e.ntab, e.nrev = map[string]int{}, map[int]string{}
+	}
+	id := 5000 + len(e.ntab)
+	e.ntab[s], e.nrev[id] = id, s
+	return id
 }
 
 func newEnv() *env {
@@ -238,7 +285,7 @@ func (e *env) wrOf(t int) *WR {
 	if w == nil {
 		return nil
 	}
-	r := &WR{Names: e.idsOf(w.ResourceNames), Wildcard: w.Wildcard, Sent: nonceID(w.NonceSent), Acked: nonceID(w.NonceAcked),
+	r := &WR{Names: e.idsOf(w.ResourceNames), Wildcard: w.Wildcard, Sent: e.nid(w.NonceSent), Acked: e.nid(w.NonceAcked),
 		Always: w.AlwaysRespond, LastError: errID(w.LastError)}
 	if r.Sent < 0 || r.Acked < 0 || r.LastError < 0 {
 		e.bad = append(e.bad, fmt.Sprintf("unknown nonce/error in %+v", *w))
@@ -260,7 +307,7 @@ func (e *env) exec(o Op) Step {
 	panicked, msg := vlib.Recover(func() {
 		switch o.Kind {
 		case kReq:
-			req := &discovery.DiscoveryRequest{TypeUrl: url, ResourceNames: names(o.Names), ResponseNonce: nonceStr(o.Nonce),
+			req := &discovery.DiscoveryRequest{TypeUrl: url, ResourceNames: names(o.Names), ResponseNonce: e.nstr(o.Nonce),
 				ErrorDetail: errDetail(o.Err), VersionInfo: "v"}
 			r, d := xds.ShouldRespond(e.proxy, e.con.ID(), req)
 			s.Respond = r
@@ -270,7 +317,7 @@ func (e *env) exec(o Op) Step {
 			}
 		case kDReq:
 			req := &discovery.DeltaDiscoveryRequest{TypeUrl: url, ResourceNamesSubscribe: names(o.Sub),
-				ResourceNamesUnsubscribe: names(o.Unsub), ResponseNonce: nonceStr(o.Nonce), ErrorDetail: errDetail(o.Err)}
+				ResourceNamesUnsubscribe: names(o.Unsub), ResponseNonce: e.nstr(o.Nonce), ErrorDetail: errDetail(o.Err)}
 			if len(o.Init) > 0 {
 				req.InitialResourceVersions = map[string]string{}
 				for _, n := range o.Init {
